@@ -116,30 +116,28 @@ func (s *StreamJoin) Run(ctx ExecutionContext, produce ProduceFn, metaSend MetaS
 	rightRecordBuffer := NewRecordEventTimeBuffer()
 
 	processRecordsUpTo := func(ctx ExecutionContext, watermark time.Time, oneStreamRemains bool) error {
+		// The buffer of a side is only processed if the records of the other side are still kept.
+		var leftBuffer, rightBuffer *RecordEventTimeBuffer
 		if rightRecords != nil {
-			if err := leftRecordBuffer.Emit(watermark, func(record Record) error {
-				if err := s.receiveRecord(ctx, produce, leftRecords, rightRecords, true, record, oneStreamRemains); err != nil {
-					// TODO: Fix goroutine leak.
-					return fmt.Errorf("couldn't process record from left: %w", err)
-				}
-				return nil
-
-			}); err != nil {
-				return err
-			}
+			leftBuffer = leftRecordBuffer
 		}
-
 		if leftRecords != nil {
-			if err := rightRecordBuffer.Emit(watermark, func(record Record) error {
-				if err := s.receiveRecord(ctx, produce, rightRecords, leftRecords, false, record, oneStreamRemains); err != nil {
-					// TODO: Fix goroutine leak.
-					return fmt.Errorf("couldn't process record from right: %w", err)
-				}
-				return nil
-
-			}); err != nil {
-				return err
+			rightBuffer = rightRecordBuffer
+		}
+		if err := EmitInEventTimeOrder(leftBuffer, rightBuffer, watermark, func(record Record) error {
+			if err := s.receiveRecord(ctx, produce, leftRecords, rightRecords, true, record, oneStreamRemains); err != nil {
+				// TODO: Fix goroutine leak.
+				return fmt.Errorf("couldn't process record from left: %w", err)
 			}
+			return nil
+		}, func(record Record) error {
+			if err := s.receiveRecord(ctx, produce, rightRecords, leftRecords, false, record, oneStreamRemains); err != nil {
+				// TODO: Fix goroutine leak.
+				return fmt.Errorf("couldn't process record from right: %w", err)
+			}
+			return nil
+		}); err != nil {
+			return err
 		}
 
 		return nil
